@@ -18,18 +18,24 @@ KANI_ASSUME = [
     'machine arithmetic is bit-precise in Kani; termination is not proved by Kani',
 ]
 
+MEMO_ASSUME = [
+    'ASSUMED std::collections::HashMap<&str, V> model StrMap (get / insert over a finite map keyed by the name) and `into_iter().filter(Resolved).collect()` routed through verif_keep_resolved (verus/prelude_memo.rs)',
+    'R5n: callees that receive `self` as &mut dyn EvalContext (resolve_function, query_retrieval, eval_rule) are hand-declared stubs narrowed to the concrete scope type, with no postcondition on the scope; eval_rule is assumed to return def_sem(rule) and to keep already memoised statuses',
+    'derived Clone of QueryResult / Vec<&Rule> is a structural copy',
+]
+
 PROPS = {
     'C13': dict(level='proof', level_text='two layers. Verus (unbounded, all variant pairs): compare_values orders exactly the same-type ordered scalars and is NotComparable otherwise, compare_lt/le/gt/ge answer from that one Ordering (trichotomy, <= iff < or ==, mixed types satisfy nothing: lemma L-cmp), impl PartialEq = documented special pairs or Ordering::Equal; std comparisons are uninterpreted there. Kani (loop-free, complete over the full scalar domains i64, finite f64, char, variant pairs, inclusive bits): the numeric content of those comparisons and of is_within on the real code', level_note='regex engine trusted (stubbed); format! stubbed; string order (std), list / map structural equality (compare_eq loops, derived PartialEq of MapValue / Vec) and `in [..]` list scanning in operators.rs are NOT decided', vgroups=['compare'], kunits=['U-cmp-int', 'U-cmp-float', 'U-cmp-char-null-bool', 'U-cmp-types', 'U-peq-same', 'U-within', 'U-unary-op-k'],
                 assumptions=COMMON_ASSUME + KANI_ASSUME + ['ASSUMED uninterpreted models (verus/prelude_cmp.rs) of Ord::cmp on String / char, f64::partial_cmp, `==` on String / Vec<PathAwareValue> / MapValue, WithinRange::is_within, fancy_regex::Regex::{new, is_match}; is_match on a compiled expression is assumed not to fail (the repository comment says so)', 'PathAwareValue::type_info assumed (message text only)'],
                 not_under_contract=['regex engine (fancy_regex) - trusted', 'string comparison (lexicographic order): std, its Kani unit did not finish', 'compare_eq on lists / maps (iterator zip / IndexMap loops: outside the extractable subset; Kani cannot build IndexMap)', 'derived PartialEq of MapValue / Vec<PathAwareValue>', '`X in [v1..vn]` (operators.rs)'],
                 explanation=''),
-    'C01': dict(level='proof', vgroups=['eval', 'eval_blocks', 'eval_disp', 'index'],
+    'C01': dict(level='proof', vgroups=['eval', 'eval_blocks', 'eval_disp', 'index', 'memo', 'memo_block'],
                 kunits=['U-cnf', 'U-unary-special', 'U-unary-wiring', 'U-cmp-int', 'U-cmp-float', 'U-cmp-char-null-bool', 'U-cmp-types', 'U-within'],
                 kunits_quick=['U-cnf', 'U-cmp-int', 'U-within'],
-                assumptions=EVAL_ASSUME + KANI_ASSUME,
+                assumptions=EVAL_ASSUME + KANI_ASSUME + MEMO_ASSUME,
                 level_text='whole-interpreter correctness is NOT claimed. Decided by contracts: clause = all/some aggregation of per-value results with the right polarity (U-gac), binary per-value layer (U-binop), named-rule / when / rule / file composition (Verus, unbounded); CNF combinator, unary truth tables, index retrieval, scalar comparison kernel, range membership, operator-level flip (Kani; complete over scalar domains, otherwise bounded as stated)',
                 level_note='query traversal (keys, *, [*], filters, variables, key-case converters) and list flattening in operators.rs are NOT under contract: a change confined to query_retrieval_with_converter is not detected by this check',
-                not_under_contract=['query_retrieval_with_converter', 'operators.rs list-valued Eq/In', 'eval_guard_block_clause', 'eval_type_block_clause', 'scopes (resolve_variable, rule_status)', 'parser'],
+                not_under_contract=['query_retrieval_with_converter', 'operators.rs list-valued Eq/In', 'eval_guard_block_clause', 'eval_type_block_clause', 'key capture (add_variable_capture_key)', 'parser'],
                 explanation=''),
     'C08': dict(level='proof', vgroups=['eval', 'eval_blocks', 'eval_disp', 'index', 'index2', 'tracker', 'tables', 'validate', 'exit', 'status', 'merge', 'report'],
                 kunits=['U-substr', 'U-call', 'U-cnf', 'U-count', 'U-conv', 'U-join', 'U-expect', 'U-xr'],
@@ -49,10 +55,10 @@ PROPS = {
                 explanation=''),
     'C03': dict(level='proof', level_text='Verus proves that the polarity reaching the per-value layer is operator-not XOR prefix-not on both the unary and the binary path of the real eval_guard_access_clause, and the named-rule negation table', level_note='binary path: binary_operation is proved (U-binop) against the comparator contract cmp_sem, which stays assumed (operators.rs did not finish under Kani); unary path: unary_operation is an assumed callee contract in Verus, checked by the bounded Kani units U-unary-special (result-set branch) and U-unary-wiring (exists / is_*); the per-value `empty` path is not decided', vgroups=['eval'], kunits=['U-unary-special', 'U-unary-wiring'], assumptions=EVAL_ASSUME,
                 not_under_contract=['operators.rs list-valued In/Eq flip'], explanation=''),
-    'C04': dict(level='proof', vgroups=['status', 'eval'], kunits=['U-cnf'], assumptions=EVAL_ASSUME,
+    'C04': dict(level='proof', vgroups=['status', 'eval', 'memo', 'memo_block'], kunits=['U-cnf'], assumptions=EVAL_ASSUME + MEMO_ASSUME,
                 level_text='order/repetition invariance is proved as lemmas over the aggregation spec functions (permutation = equal multisets, repetition = insertion of a copy; unbounded), composed with the conformance of the real aggregators to those spec functions (Verus unbounded for rule list / rule / when; Kani bounded for the CNF combinator)',
-                level_note='the history dimension (rule_status memo, lazy variable resolution, definition order of named rules) is NOT decided; CNF conformance is bounded (3x3)',
-                not_under_contract=['RootScope::rule_status memoisation', 'lazy resolve_variable', 'key capture'], explanation=''),
+                level_note='history dimension: the memo tables are under contract (RootScope::rule_status: first non-SKIP definition, memoised once, other entries untouched; Root/BlockScope::resolve_variable: literal wins, a memoised result is returned as stored, the first result is exactly what is memoised), assuming that the status of one rule definition does not depend on the memo state; key capture (add_variable_capture_key mutates a memoised entry by design) and that assumption itself are NOT decided; CNF conformance is bounded (3x3)',
+                not_under_contract=['add_variable_capture_key (key capture mutates memo entries)', 'state-independence of eval_rule / query_retrieval results (assumed: def_sem)', 'ValueScope delegation'], explanation=''),
     'C09': dict(level='proof', vgroups=['report', 'status', 'eval'], kunits=[], assumptions=EVAL_ASSUME + [
                     'ASSUMED BTreeSet<String>/Vec::extend/HashMap::extend API models', 'assumed contract of report_all_failed_clauses_for_rules (one Rule entry per FAIL rule child)'],
                 level_text='Verus proves that compliant / not_applicable are exactly the PASS / SKIP rule children of the FileCheck node, status and name are copied, not_compliant has one Rule entry per FAIL child (callee contract), the partition lemma for distinct rule names, file status vs partitions, and that combine is the union with Status::and',
